@@ -53,6 +53,28 @@ type histOp struct {
 
 type histAbort struct{}
 
+// The text back end has a second configuration, NewTextEncoder(true): the content of registered "hidden" tags is
+// replaced by a mask. The flag is state of the writer that Clear() must keep: a cleared hiding encoder must hide
+// like a new one. The library registers no hidden tag itself; the harness registers three tags of its private
+// extension range at init time (registration is an init-time act, see the assumptions of C20). Histories on this
+// configuration are impl-only (`# enc.hist text-hide …`): the Lean writer model has no hide flag.
+const histHideBackend = "text-hide"
+
+var histHiddenTags = []int{0x540002, 0x540003, 0x540010}
+
+func init() {
+	for _, t := range histHiddenTags {
+		ttlv.RegisterHideTag(t)
+	}
+}
+
+func histNewEncoder(be string) ttlv.Encoder {
+	if be == histHideBackend {
+		return ttlv.NewTextEncoder(true)
+	}
+	return newCacheEncoder(be)
+}
+
 func renderCalls(cs []histCall) string {
 	var parts []string
 	for _, c := range cs {
@@ -160,7 +182,7 @@ func (r histResult) String() string {
 
 // histImpl runs a history on one real encoder. Returns what the caller observed; reports aliasing effects.
 func (e *cacheEngine) histRun(be string, h []histOp, line string, watchAlias bool) histResult {
-	enc := newCacheEncoder(be)
+	enc := histNewEncoder(be)
 	var res histResult
 	var views []*histView
 	for _, op := range h {
@@ -428,7 +450,7 @@ func (e *cacheEngine) histLines() {
 		at int // index of the Clear whose suffix is compared with a new encoder (-1: none)
 	}
 	var jobs []job
-	for _, be := range cacheFormats {
+	for _, be := range append(append([]string{}, cacheFormats...), histHideBackend) {
 		for _, h := range fixed {
 			if be != "ttlv" {
 				typed := false
@@ -467,11 +489,15 @@ func (e *cacheEngine) histLines() {
 	}
 	for _, j := range jobs {
 		line := e.renderHist(j.be, j.h)
+		if j.be == histHideBackend {
+			line = "# " + line // impl-only: not a question for the model
+		}
 		ctx.current = line
 		e.histClassify(j.h)
 		res := e.histRun(j.be, j.h, line, true)
 		ctx.Add(line, res.String(), true, "C20")
 		ctx.Res.Count("cache.hist." + j.be)
+
 		at := j.at
 		if at < 0 {
 			// the last Clear of a hand-written history
@@ -495,6 +521,10 @@ func (e *cacheEngine) histLines() {
 		}
 		gotFlags, gotOuts := res.flags[at+1:], res.outs[nB:]
 		ctx.Res.Count("cache.hist.reuse-oracle." + j.be)
+		if j.be == histHideBackend && strings.Contains(strings.Join(want.outs, ","), hexUp([]byte("******"))) {
+			// the continuation after Clear writes a hidden tag: a cleared encoder that forgot to hide shows here
+			ctx.Res.Count("cache.hist.text-hide.mask-written-after-clear")
+		}
 		if gotFlags != want.flags || strings.Join(gotOuts, ",") != strings.Join(want.outs, ",") {
 			e.violate("hist-reuse", "cache:hist-reuse-differs:"+j.be,
 				fmt.Sprintf("the calls after Clear() behave differently from the same calls on a new %s encoder: returned-normally flags %s vs %s; Bytes(): %s", j.be, gotFlags, want.flags, firstDiff(strings.Join(want.outs, ","), strings.Join(gotOuts, ","))), line)
@@ -510,6 +540,9 @@ func (e *cacheEngine) histLines() {
 		if ctx.Res.Distribution[k] < 4 {
 			ctx.Res.Fail(fmt.Sprintf("lost evidence: history class %s generated only %d times", k, ctx.Res.Distribution[k]))
 		}
+	}
+	if n := ctx.Res.Distribution["cache.hist.text-hide.mask-written-after-clear"]; n < 4 {
+		ctx.Res.Fail(fmt.Sprintf("lost evidence: only %d histories of the hiding text encoder wrote a hidden tag after a Clear", n))
 	}
 	if ctx.Res.Distribution["cache.alias.overwritten-after-clear.ttlv"] == 0 {
 		// positive control of the alias bookkeeping: the documented overwrite must have been observed at least once
